@@ -28,6 +28,12 @@ requests are dominated by 'not suspended'; the monitors watch removes exactly
 known - listed and watches exactly listed - known; each handled failure
 class suspends the monitor.  C20.7 the instance API raises under existing +
 count > quota for both quotas before anything is created.
+Added by the seeding rounds - C20.3 the refill is capped at the budget and a
+monitor update starts from 2 * count; C20.4 the scale-down window is count-
+bounded for both policies and instances are grouped by app; C20.6 every
+notification reaches the removal and watch passes and each handled failure
+class suspends the monitor (directly, through a closure or an inlined helper);
+C20.7 quota exceeded exactly when existing + count > quota.
 Does NOT decide convergence and budget over sequences of evaluations.
 """
 
